@@ -339,11 +339,11 @@ func TestVerifC02(t *testing.T) {
 	nsl := ev.Pick(150, 500)
 	specs := []cargen.Opts{
 		{Epoch: 0, Seed: seed, NSlots: nsl, SkipOneIn: 4, MaxEntries: 3, MaxTx: 4, MultiFrameOneIn: 4, MaxFrames: 12, RewardsOneIn: 3, VoteOneIn: 4, FailOneIn: 4, V0OneIn: 4, TinyOneIn: 9, SigEdgeOneIn: 6, EmptyBlockOneIn: 6},
-		{Epoch: 1, Seed: seed + 1, NSlots: nsl, SkipOneIn: 3, MaxEntries: 4, MaxTx: 3, MultiFrameOneIn: 3, MaxFrames: 40, FanOut: 0, RewardsOneIn: 2, VoteOneIn: 3, FailOneIn: 5, V0OneIn: 3, BigOneIn: 15, LegacyFnvOneIn: 3, BlocktimeEdgeOneIn: 5, LastSlot: true},
+		{Epoch: 1, Seed: seed + 1, NSlots: nsl, SkipOneIn: 3, MaxEntries: 4, MaxTx: 3, MultiFrameOneIn: 3, MaxFrames: 40, FanOut: 0, SplitTxData: true, RewardsOneIn: 2, VoteOneIn: 3, FailOneIn: 5, V0OneIn: 3, BigOneIn: 15, LegacyFnvOneIn: 3, BlocktimeEdgeOneIn: 5, LastSlot: true},
 		{Epoch: 2, Seed: seed + 2, NSlots: nsl, SkipOneIn: 0, MaxEntries: 2, MaxTx: 5, MultiFrameOneIn: 6, MaxFrames: 5, RewardsOneIn: 0, VoteOneIn: 2, FailOneIn: 3, V0OneIn: 5, SigEdgeOneIn: 4, SubsetEvery: 9},
 	}
 	if ev.Thorough() {
-		specs = append(specs, cargen.Opts{Epoch: 5, Seed: seed + 5, NSlots: nsl, SkipOneIn: 2, MaxEntries: 5, MaxTx: 6, MultiFrameOneIn: 2, MaxFrames: 60, RewardsOneIn: 1, VoteOneIn: 4, FailOneIn: 4, V0OneIn: 2, RootSha512: true})
+		specs = append(specs, cargen.Opts{Epoch: 5, Seed: seed + 5, NSlots: nsl, SkipOneIn: 2, MaxEntries: 5, MaxTx: 6, MultiFrameOneIn: 2, MaxFrames: 60, SplitTxData: true, RewardsOneIn: 1, VoteOneIn: 4, FailOneIn: 4, V0OneIn: 2, RootSha512: true})
 	}
 	// corner: epoch 0 with slot 1 skipped (a block > 1 whose parent is slot 0)
 	corner := cargen.Opts{Epoch: 0, Seed: seed + 77, Slots: []uint64{0, 2, 3, 4, 7}, MaxEntries: 2, MaxTx: 3}
